@@ -3,7 +3,7 @@ from registry_common import COMMON_ASSUME
 ENTRY = dict(
         title="Only intact, correctly addressed frames are delivered",
         design_ref="DESIGN.md section 6 / C01",
-        prop_modules=["C01", "C01Session", "C01SessionX", "C01Twins", "C01Chunks", "TieFrame", "TieReader"],
+        prop_modules=["C01", "C01SessionBytes", "C01Session", "C01SessionX", "C01Twins", "C01Chunks", "TieFrame", "TieReader"],
         technique="Lean 4 theorem over all byte streams (reader model) + correspondence with FrameReader.read on a real StreamReader + Lean judge C01.spec on implementation deliveries",
         level_text=(
             "Proof: `C01.delivered_only_if_well_formed` and `C01.holds` show for ALL byte streams that a delivery by the reader model "
@@ -14,11 +14,13 @@ ENTRY = dict(
         level_note="Trusted: Lean kernel; reader model <-> stream.py tie is differential (generated streams); asyncio.StreamReader chunk handling is exercised, not modelled.",
         clauses={
             "a reader object used again after calls that ended abnormally (READER_TIMEOUT, cancellation by the caller; after the delimiter, inside the header, inside the body) delivers only frames justified by the bytes THAT call consumed":
-                "theorem (C01.session_calls_are_reads, session_delivered_only_if_well_formed over Model/ReaderSession: the stream position is where the abandoned call stopped, nothing else is remembered) + correspondence (one FrameReader / DummyProtocol.reader across abandoned calls vs the session model, C01.spec on every later delivery)",
-            "frames with a byte-identical body under different headers (XOR of recipient / sender / type / version equal, so the checksum is the same) through ONE reader are each delivered with their own header bytes; delivered objects are never handed out twice and keep their fields":
-                "theorem (C01.twin_same_body, twin_frames_each_own_fields, twin_deliveries_differ) + correspondence (twin streams and twin sessions; C01.spec on the bytes each call consumed; object freshness)",
+                "theorem (C01.session_calls_are_reads_of_the_fed_bytes, session_delivered_bytes over Model/ReaderSession: for every completed call in the event list the chunks fed by then are pre ++ consumed ++ post, |pre| = the sum of what the earlier calls took, outcome = readFrame (consumed ++ post), a delivery's fields are those of `consumed` (noise ++ fr, wf fr f); the length-only forms session_calls_are_reads, session_delivered_only_if_well_formed are corollaries: the stream position is where the abandoned call stopped, nothing else is remembered) + correspondence (one FrameReader / DummyProtocol.reader across abandoned calls vs the session model, C01.spec on every later delivery)",
+            "frames with a byte-identical body under different headers (XOR of recipient / sender / type / version equal, so the checksum is the same) through ONE reader are each delivered with their own header bytes":
+                "theorem (C01.twin_same_body, twin_frames_each_own_fields: `readAll (encode f ++ encode g)` = [f's outcome, g's outcome, connLost]; twin_session_each_own_fields: the same on the session machine, two completed calls carrying `f` and `g`; twin_deliveries_differ is only the remark that the two outcomes are different values) + correspondence (twin streams and twin sessions; C01.spec on the bytes each call consumed)",
+            "delivered objects are never handed out twice and keep their fields (object identity / freshness of what `read()` returns)":
+                "CORRESPONDENCE ONLY (harness/c01.py object-freshness checks on twin streams, twin sessions, repeated identical frames, deliveries after the caller modified an earlier object). The model's `Fields` are values without identity, so no theorem speaks about WHICH object is handed out; a change that re-delivers a cached object with the right field values (seeded C01-m14) can only be seen by the harness.",
             "calls abandoned at the LAST await of read() (Frame.create: class lookup + executor hop, frame consumed and every gate passed), frames of unknown kinds repeated, identical frames repeated after the caller modified the delivered object: later deliveries are justified by the bytes THAT call consumed":
-                "theorem (Model/ReaderSession.sessionX; C01.sessionX_calls_are_reads, sessionX_delivered_only_if_well_formed) + correspondence (one FrameReader under a held executor; abandoned by READER_TIMEOUT or cancellation; C01.spec on every delivery; object freshness)",
+                "theorem (Model/ReaderSession.sessionX; C01.sessionX_calls_are_reads_of_the_fed_bytes, sessionX_delivered_bytes (Props/C01SessionBytes: the consumed bytes are located in the bytes fed so far, exactly behind what the earlier events took); corollaries sessionX_calls_are_reads, sessionX_delivered_only_if_well_formed) + correspondence (one FrameReader under a held executor; abandoned by READER_TIMEOUT or cancellation; C01.spec on every delivery; object freshness)",
             "delivered => well-formed, all streams": "theorem",
             "non-delivery outcomes are ignored / protocol error / connection lost": "theorem (by construction of the model) + correspondence (implementation has no other behaviour)",
             "every fragmentation into chunks": "correspondence (3 chunkings per stream; StreamReader trusted)",
